@@ -44,15 +44,15 @@ def gen(tier):
             need = D + (1 if sg else 0)
             width = -(-need // lw) * lw
             k = "%d/%s" % (D, N.replace("std::", ""))
-            F.append(factmod.Fact("storage/%s/multi" % k, "vw::uw<%s>::multi" % R, 1, decls=DECLS))
-            F.append(factmod.Fact("storage/%s/width" % k, "vw::uw<%s>::width" % R, width, decls=DECLS))
-            F.append(factmod.Fact("storage/%s/limb" % k, "vw::uw<%s>::limb" % R, lw, decls=DECLS))
-            F.append(factmod.Fact("storage/%s/signed" % k, "vw::uw<%s>::sgn" % R, 1 if sg else 0, decls=DECLS))
-            F.append(factmod.Fact("limits/%s/digits" % k, "std::numeric_limits<%s>::digits" % T, D, decls=DECLS))
-            F.append(factmod.Fact("limits/%s/digits_v" % k, "cnl::digits_v<%s>" % T, D, decls=DECLS))
-            F.append(factmod.Fact("limits/%s/is_signed" % k, "std::numeric_limits<%s>::is_signed" % T, 1 if sg else 0, decls=DECLS))
-            F.append(factmod.Fact("limits/%s/signedness_v" % k, "cnl::numbers::signedness_v<%s>" % T, 1 if sg else 0, decls=DECLS))
-            F.append(factmod.Fact("limits/%s/is_integer" % k, "std::numeric_limits<%s>::is_integer" % T, 1, decls=DECLS))
+            F.append(factmod.Fact("storage/%s/multi" % k, "vw::uw<%s>::multi" % R, 1, decls=DECLS, may_reject=True))
+            F.append(factmod.Fact("storage/%s/width" % k, "vw::uw<%s>::width" % R, width, decls=DECLS, may_reject=True))
+            F.append(factmod.Fact("storage/%s/limb" % k, "vw::uw<%s>::limb" % R, lw, decls=DECLS, may_reject=True))
+            F.append(factmod.Fact("storage/%s/signed" % k, "vw::uw<%s>::sgn" % R, 1 if sg else 0, decls=DECLS, may_reject=True))
+            F.append(factmod.Fact("limits/%s/digits" % k, "std::numeric_limits<%s>::digits" % T, D, decls=DECLS, may_reject=True))
+            F.append(factmod.Fact("limits/%s/digits_v" % k, "cnl::digits_v<%s>" % T, D, decls=DECLS, may_reject=True))
+            F.append(factmod.Fact("limits/%s/is_signed" % k, "std::numeric_limits<%s>::is_signed" % T, 1 if sg else 0, decls=DECLS, may_reject=True))
+            F.append(factmod.Fact("limits/%s/signedness_v" % k, "cnl::numbers::signedness_v<%s>" % T, 1 if sg else 0, decls=DECLS, may_reject=True))
+            F.append(factmod.Fact("limits/%s/is_integer" % k, "std::numeric_limits<%s>::is_integer" % T, 1, decls=DECLS, may_reject=True))
     # operator results
     pairs = [(128, 200), (200, 128), (200, 200), (129, 1000), (257, 256), (300, 64), (40, 300)] if tier == "quick" else [(a, b) for a in (40, 64, 128, 129, 200, 256, 257, 1000) for b in (40, 128, 200, 257, 1000) if max(a, b) > 128]
     nn = [("int", True), ("unsigned", False)] if tier == "quick" else [("int", True), ("unsigned", False), ("std::int64_t", True), ("std::uint8_t", False)]
@@ -74,6 +74,9 @@ def gen(tier):
             for e, nm in (("std::declval<%s>() << 3" % T, "shl"), ("std::declval<%s>() >> 3" % T, "shr"), ("-std::declval<%s>()" % T, "neg"), ("~std::declval<%s>()" % T, "not"), ("+std::declval<%s>()" % T, "pos")):
                 F.append(factmod.Fact("unary/%d%s/%s/digits" % (D, "s" if s else "u", nm), "cnl::digits_v<decltype(%s)>" % e, D, decls=DECLS, may_reject=True))
                 F.append(factmod.Fact("unary/%d%s/%s/signed" % (D, "s" if s else "u", nm), "cnl::numbers::signedness_v<decltype(%s)>" % e, 1 if s else 0, decls=DECLS, may_reject=True))
+    # a digit count / narrowest pair whose multi-limb width the vendored uintwide_t does not support (e.g. 2048 signed digits
+    # on 32-bit limbs: width 2080) is rejected by the library as soon as the rep is instantiated: "ill-formed" is never
+    # counted as "wrong", and how early the rejection comes is not a property (a behaviour-preserving refactor moved it)
     return F
 
 
